@@ -200,6 +200,24 @@ def record_trace_validate(scratch, harness, family, trace_spec, trace_cfg, seed,
     return info, summary, rejected
 
 
+def validate_trace_only(scratch, trace_spec, trace_cfg, timeout_s):
+    sd = prepare_spec_dir(scratch)
+    meta = tempfile.mkdtemp(prefix="meta_", dir=scratch)
+    cmd = ["timeout", str(timeout_s)] + tlc_cmd(trace_spec, trace_cfg, meta, 1)
+    t0 = time.time()
+    r = run(cmd, cwd=sd, stdout=subprocess.PIPE, stderr=subprocess.STDOUT, text=True)
+    shutil.rmtree(meta, ignore_errors=True)
+    info = parse_tlc_log(r.stdout)
+    info["wall_s"] = round(time.time() - t0, 1)
+    info["cmd"] = "tlc -config %s %s (re-validation after a rejected session)" % (trace_cfg, trace_spec)
+    hw = re.search(r"TRACE-HIGHWATER (\d+)", r.stdout)
+    if "TRACE-ACCEPTED" in r.stdout and info["ok"]:
+        return info, None
+    if hw:
+        return info, int(hw.group(1))
+    raise MachineryError("trace specification failed to run (%s): %s" % (trace_cfg, r.stdout[-1500:]))
+
+
 # ----------------------------------------------------------------------------- findings
 def load_known():
     fixed, findings = [], []
@@ -386,6 +404,38 @@ class Ctx:
         res.add_tlc(info)
         res.add_summary(family, summ)
         return info, summ
+
+    def trace(self, res, family, trace_spec, trace_cfg, n, timeout_s=600, max_rejects=3):
+        """code -> spec: record n events, validate; on rejection report the session and continue with the rest."""
+        seed = self.seed
+        info, summ, rejected = record_trace_validate(self.scratch, self.harness(), family, trace_spec, trace_cfg, seed, n, timeout_s)
+        res.add_tlc(info)
+        res.add_summary(family + "-trace", summ, count_as_traces=True)
+        tries = 0
+        trace = info["trace_file"]
+        while rejected is not None and tries < max_rejects:
+            tries += 1
+            lines = open(trace).read().splitlines()
+            idx = rejected - 1          # 0-based index of the rejected event
+            start = idx
+            while start > 0 and json.loads(lines[start]).get("op") != "reset":
+                start -= 1
+            session = [json.loads(x) for x in lines[start:idx + 1]]
+            ev = session[-1]
+            res.mismatches.append((family, {"sig": "trace:%s:%s" % (family, ev.get("op")),
+                                            "detail": "trace event %d (%s) rejected by %s: %s" % (rejected, ev.get("op"), trace_spec, json.dumps(ev)[:600]),
+                                            "case": {"session": session}}, 1))
+            # drop the whole session and validate the rest
+            end = idx + 1
+            while end < len(lines) and json.loads(lines[end]).get("op") != "reset":
+                end += 1
+            rest = lines[:start] + lines[end:]
+            if not rest:
+                break
+            open(trace, "w").write("\n".join(rest) + "\n")
+            info2, rejected = validate_trace_only(self.scratch, trace_spec, trace_cfg, timeout_s)
+            res.add_tlc(info2)
+        return info
 
     def check(self, res, spec, cfg, timeout_s=None, **kw):
         timeout_s = timeout_s or (600 if self.quick else 3600)
